@@ -113,6 +113,7 @@ class Interp:
         self.extern_calls: set[str] = set()
         self.top_label = None
         self.mutable_globals = set()
+        self.exc_stack = []
         self.local_loops = {}  # loop annotations registered by the contract being verified
         self.on_call = {}  # dotted name -> callback(args dict) executed before a call (ghost monitors)
         self.yield_hook = None
@@ -1501,7 +1502,9 @@ class Interp:
 
     def s_Raise(self, node, env):
         if node.exc is None:
-            raise OutOfReach("bare raise")
+            if self.exc_stack:
+                raise self.exc_stack[-1]
+            raise OutOfReach("bare raise outside an except block")
         v = self.eval(node.exc, env)
         if isinstance(v, ClassRef) and v.cls.is_exception:
             v = self.make_repo_exc(v.cls, ())
@@ -1557,8 +1560,54 @@ class Interp:
     def call_method(self, obj, name, args, kwargs):
         return self.call_value(self.getattr(obj, name), args, kwargs)
 
+    def _exc_matches(self, exc, tv):
+        """does the (symbolic-engine) exception object match the evaluated `except` type expression?"""
+        if isinstance(tv, tuple):
+            return any(self._exc_matches(exc, t) for t in tv)
+        if isinstance(tv, ClassRef):
+            return exc.isinstance_of(tv.cls.ref) or exc.isinstance_of(tv.cls.name) or exc.type_name == tv.cls.ref
+        if isinstance(tv, Builtin):
+            name = tv.name
+            short = name.split(".")[-1]
+            return exc.isinstance_of(name) or exc.isinstance_of(short) or exc.type_name.split(":")[-1].split(".")[-1] == short
+        raise OutOfReach(f"except clause with a type the executor cannot name: {tv!r}")
+
     def s_Try(self, node, env):
-        raise OutOfReach("try statement")
+        """try / except / else / finally with Python's semantics for exceptions raised by the interpreted program. Engine
+        signals (end of path, out of reach) pass through untouched."""
+        if getattr(node, "handlers", None) is None:
+            raise OutOfReach("try statement form")
+
+        def run_finally():
+            if node.finalbody:
+                self.exec_block(node.finalbody, env)
+
+        try:
+            try:
+                self.exec_block(node.body, env)
+            except PyRaise as e:
+                handled = False
+                for h in node.handlers:
+                    if h.type is None or self._exc_matches(e.exc, self.eval(h.type, env)):
+                        if h.name:
+                            env.vars[h.name] = e.exc
+                        self.exc_stack.append(e)
+                        try:
+                            self.exec_block(h.body, env)
+                        finally:
+                            self.exc_stack.pop()
+                        handled = True
+                        break
+                if not handled:
+                    raise
+            else:
+                if node.orelse:
+                    self.exec_block(node.orelse, env)
+        except (PyRaise, ReturnEx, BreakEx, ContinueEx):
+            run_finally()  # a raise / return / break / continue inside finally replaces the pending one, as in Python
+            raise
+        run_finally()
+
 
     # ------------------------------------------------------------------ loops
     def s_While(self, node, env):
